@@ -21,39 +21,39 @@ fn kani_concrete_playback_c06_cap_kernel_missing_parts_6027992492434505959() {
 }
 
 #[test]
-fn kani_concrete_playback_c06_cap_kernel_missing_parts_6499718920276980091() {
+fn kani_concrete_playback_c06_cap_kernel_missing_parts_17387810673103532460() {
     let concrete_vals: Vec<Vec<u8>> = vec![
         // 1
         vec![1],
-        // 0
-        vec![0, 0],
-        // 24577
-        vec![1, 96],
-        // 32766
-        vec![254, 127],
+        // -7404
+        vec![20, 227],
+        // -2404
+        vec![156, 246],
+        // -12344
+        vec![200, 207],
+        // 27363
+        vec![227, 106],
         // -32768
         vec![0, 128],
-        // -28672
-        vec![0, 144],
     ];
     kani::concrete_playback_run(concrete_vals, c06_cap_kernel_missing_parts);
 }
 
 #[test]
-fn kani_concrete_playback_c06_cap_kernel_missing_parts_15586431764983946106() {
+fn kani_concrete_playback_c06_cap_kernel_missing_parts_12150121825759218891() {
     let concrete_vals: Vec<Vec<u8>> = vec![
         // 1
         vec![1],
-        // 16381
-        vec![253, 63],
-        // -24571
-        vec![5, 160],
-        // -16381
-        vec![3, 192],
-        // 32766
-        vec![254, 127],
-        // -16377
-        vec![7, 192],
+        // 17709
+        vec![45, 69],
+        // -30354
+        vec![110, 137],
+        // -10340
+        vec![156, 215],
+        // 8192
+        vec![0, 32],
+        // -8209
+        vec![239, 223],
     ];
     kani::concrete_playback_run(concrete_vals, c06_cap_kernel_missing_parts);
 }
